@@ -298,6 +298,21 @@ func c10RacePrograms(tier string) []*Spec {
 				out = append(out, sp)
 			}
 		}
+		// the library's own moving-average decorators: updates run in helper goroutines while frames are drawn
+		for _, total := range []int64{2, 0} {
+			sp := &Spec{Name: fmt.Sprintf("c10r-ewma-t%d", total), Refresh: rf, Q: -1}
+			sp.Bars = []BarSpec{{Total: total, Pre: []DecorSpec{{Builtin: "ewmaeta"}}, App: []DecorSpec{{Builtin: "ewmaspeed", Depth: 1}, {Builtin: "percentage", Sync: true}}}, {Total: 5, App: []DecorSpec{{Builtin: "counters", Sync: true}}}}
+			sp.Main = []Op{{K: "add", B: 0}, {K: "add", B: 1}}
+			mut := []Op{{K: "ewma", N: 1}, {K: "ewma", N: 1}, {K: "ewma", N: 1}}
+			if total == 0 {
+				mut = append(mut, Op{K: "settotal", N: -1, F: true})
+			}
+			sp.Clients = [][]Op{mut, {{K: "incr", B: 1, N: 1}, {K: "get", B: 0}, {K: "incr", B: 1, N: 4}}}
+			if rf == "manual" {
+				sp.Clients = append(sp.Clients, []Op{{K: "refresh"}, {K: "refresh"}, {K: "refresh"}, {K: "refresh"}})
+			}
+			out = append(out, sp)
+		}
 		// writers, priority changes, abort and shutdown racing with rendering
 		sp := &Spec{Name: "c10r-mixed", Refresh: rf, Q: -1, Notifier: true}
 		sp.Bars = []BarSpec{{Total: 3, Pre: []DecorSpec{syncD(2, 1)}, ExtRows: 1}, {Total: 3, Pre: []DecorSpec{syncD(1, 3)}}}
